@@ -1,9 +1,67 @@
-NOTES = "All checks are generated-input search against an explicit oracle (property-based testing; thorough tier adds coverage-guided fuzzing). exit 0 = held, 1 = VIOLATION line, 2 = infrastructure (build failure, degenerate generator, watchdog)."
+NOTES = ("All 20 checks are generated-input search against an explicit oracle (property-based testing with proptest over a replicated-history language, "
+         "bounded-exhaustive small scopes for C10/C14/C15; thorough tier = 30-50x cases; coverage-guided libFuzzer targets over the same interpreter live in /verif/fuzz). "
+         "exit 0 = held on everything explored (KNOWN-FINDING lines possible), 1 = VIOLATION line, 2 = infrastructure (build failure, degenerate generator, watchdog). "
+         "Known findings are listed in known_findings.json with one minimal replay per (property, class); each check re-executes its replays in strict mode and prints KNOWN-FINDING while they still fail.")
 NOT_APPLICABLE = {}
-EXPL = "Generated-history search against a reference model: evidence that the property holds on every explored history, never a proof of absence."
-add("C04", "property-based testing: proptest-generated replicated histories vs dot-store reference model (stateful/model-based)",
-    EXPL + " Every read of the affected replica is compared with the observed-remove/add-wins specification after every step, under causal and per-actor (FIFO) delivery with duplicates, merges and stale merges.",
-    "Trusts the harness's knowledge-set bookkeeping and the dot-store model (sets of op ids + integer comparisons); u8 members/actors; each actor confined to one replica.", "DESIGN.md 3/C04")
-add("C06", "property-based testing: proptest-generated write histories under arbitrary delivery vs knowledge-set model of causally-maximal writes",
-    EXPL + " read().val (multiset) and add_clock compared with the model after every step, any delivery order, duplicates, merges.",
+E = "Exploration: generated-history search against an explicit oracle; evidence that the property holds on every explored case, never a proof of absence. "
+T_HIST = "property-based testing (proptest): generated replicated histories (Plans) interpreted against the real library, "
+add("C01", T_HIST + "differential oracle: equal knowledge sets => equal reads, plus ops-only twins in other causal orders",
+    E + "All 15 instantiations; replicas and fresh twins with equal knowledge compared on every read and context after every step under causal delivery.",
+    "Trusts the simulator's knowledge-set bookkeeping. Map<_,MVReg>: keys where the MAP-T2 trigger (model-side) holds are exempted for extra written values only.", "DESIGN.md 3/C01")
+add("C02", T_HIST + "metamorphic oracle: a+b=b+a, (a+b)+c=a+(b+c), a+a=a on triples of reachable states, gossip convergence",
+    E + "Operands share history, hold observed-remote removes and pending removes and are results of earlier merges.",
+    "Map: per-key exemptions MAP-T1/T3/T5 (model-side triggers); LWWReg markers unique.", "DESIGN.md 3/C02")
+add("C03", T_HIST + "differential oracle: merged state vs ops-only twin fed the union of the ops",
+    E + "After every step, and for generated pairs merge(state r1, state r2), reads equal those of a fresh replica that applied exactly the ops of the knowledge set.",
+    "Causally closed knowledge for Orswot/Map/MVReg, arbitrary for order-free types; Map exemptions MAP-T1/T2/T5 per key.", "DESIGN.md 3/C03")
+add("C04", T_HIST + "reference model: dot-store specification of an observed-remove add-wins set (stateful/model-based)",
+    E + "Every read entry point of the affected replica compared with the specification after every step, causal and per-actor delivery, duplicates, merges, stale merges. Strict: no exemption.",
+    "Trusts the dot-store model (sets of op ids + integer comparisons); u8 members/actors; each actor confined to one replica.", "DESIGN.md 3/C04")
+add("C05", T_HIST + "reference model: recursive dot-store specification of Map keys and nested values at depth 1 and 2",
+    E + "Keys, nested content at every depth, key witnesses and map clock compared with the specification after every step. Two strict sub-domains (Map<_,Orswot>, Map<_,Map<_,Orswot>> under causal op delivery) have no exemption.",
+    "Exemptions per key (model-side triggers): MAP-T2 (MVReg leaves, extras only), MAP-T1 and MAP-T5 (merged lineage).", "DESIGN.md 3/C05")
+add("C06", T_HIST + "reference model: knowledge-set model of the causally-maximal writes under arbitrary delivery",
+    E + "read().val (multiset) and add_clock compared with the model after every step under ANY delivery order, duplicates, merges. Strict.",
     "Trusts the causal-past computation of the model; u16 values/u8 actors.", "DESIGN.md 3/C06")
+add("C07", T_HIST + "model oracle on every read entry point's contexts + arithmetic/freshness oracle on derived contexts",
+    E + "Every read entry point of top-level Orswot, Map (x2) and MVReg probed after every step; add/rm clocks vs model, derived dots fresh.",
+    "Top-level replicas only; Map key witnesses after merges inherit MAP-T1 (exempted per key).", "DESIGN.md 3/C07")
+add("C08", T_HIST + "differential oracle (non-causal vs causal delivery of the same op set) + reference model on intermediate reads",
+    E + "Per-actor (FIFO) delivery for Orswot/Map, no ordering for MVReg and order-free types, newest-first bias so removes overtake; settle phase; merges of replicas holding pending removes.",
+    "Exemptions per key: MAP-T3, MAP-T6, MAP-T2/T2b/T5 (extras only), MAP-T1. Orswot and MVReg strict.", "DESIGN.md 3/C08")
+add("C09", T_HIST + "metamorphic oracle: state (reads and ==) unchanged by an already-known op or a subsumed state; model clause for non-resurrection",
+    E + "Histories rich in re-deliveries and stale-snapshot merges; reads, contexts and == of the receiver must not change.",
+    "Exemptions: reads MAP-T1/T2/T5 per key; == only: MAP-T4, MAP-T2b, MAP-T5.", "DESIGN.md 3/C09")
+add("C10", "bounded-exhaustive enumeration (all clocks over 3-4 actors x counters 0..3, all pairs and triples) + property-based testing (proptest) against a BTreeMap model",
+    E + "The exhaustive part is complete for its stated scope; per-actor independence makes it representative.",
+    "Clocks are built through the API only; the model is a BTreeMap<actor,u64> with absent = 0.", "DESIGN.md 3/C10")
+add("C11", T_HIST + "reference model: arithmetic over the knowledge set (sum of per-actor maxima, max/min, greatest marker, union)",
+    E + "Any delivery order, duplicates, merges, stale merges; value and internal state tree compared after every step; dedicated colliding-marker job for LWWReg's conflict flag.",
+    "Counter totals stay far below u64::MAX; LWWReg markers unique.", "DESIGN.md 3/C11")
+add("C12", T_HIST + "invariant over the whole history: a single global total order exists (antisymmetric + acyclic 'before' relation across replicas and steps), membership model",
+    E + "Delayed causal delivery with 3+ actors inserting into the same gap, duplicates; settle phase.",
+    "Causal delivery (List's documented contract).", "DESIGN.md 3/C12")
+add("C13", T_HIST + "reference model: Vec model of index semantics, exhaustively over every index of each generated state",
+    E + "Every index (and beyond) of reachable states with concurrently inserted siblings, for List and GList (insert, insert_after, insert_before).",
+    "GList::insert only with idx <= len (documented precondition).", "DESIGN.md 3/C13")
+add("C14", "bounded-exhaustive enumeration (all identifier paths of depth <=2/3 over a small alphabet) + property-based testing (proptest) against an independently written reference order",
+    E + "Total order laws, density in both argument orders for every marker, one-sided between, marker uniqueness, chains of repeated between().",
+    "Non-empty identifiers injected through serde (private constructor), reduced ratios.", "DESIGN.md 3/C14")
+add("C15", "bounded-exhaustive enumeration (every DAG shape up to 5/6 nodes x every arrival order) + property-based testing (proptest) against a least-fixpoint model",
+    E + "heads, counts, node/children/parents, ==, write-on-heads compared with the model after every arrival; any order, duplicates, merges.",
+    "Distinct node hashes (unique fixed-length values).", "DESIGN.md 3/C15")
+add("C16", T_HIST + "reference model of validate_op verdicts (exact error values) for every op at every replica and step",
+    E + "Ops next in order, already applied and out of order are all probed; exact DotRange / SourceOrder / MissingChild / ConflictingMarker expectations.",
+    "Known finding MAP-V1 exempted where its model-side trigger holds.", "DESIGN.md 3/C16")
+add("C17", T_HIST + "oracle: Ok + direction independence under correct use; error whenever observed witnesses show a double-spent dot under deliberate actor reuse",
+    E + "All pairs of current states and snapshots after every step, correct use and misuse (one actor at two replicas).",
+    "Known finding ORSWOT-V2 exempted when the knowledge contains a multi-member add.", "DESIGN.md 3/C17")
+add("C18", T_HIST + "pointwise reference model of reset_remove on the serde state tree + algebraic laws",
+    E + "Reachable states x clocks generated relative to the state's clock (below/equal/above/concurrent/empty/slice).",
+    "Pending-remove tables are not compared after a reset (iteration-order dependent collapse).", "DESIGN.md 3/C18")
+add("C19", T_HIST + "round-trip oracle + lock-step differential against a never-serialised twin run of the same Plan",
+    E + "Save/restore at arbitrary steps, every op round-tripped through JSON before every delivery.",
+    "Known finding SERDE-D1 exempted when the model says the replica may hold a pending remove.", "DESIGN.md 3/C19")
+add("C20", T_HIST + "differential oracle on == (equal knowledge, different routes) + residue invariant on the serde state tree + canonical state rebuilt from the model",
+    E + "== in both directions (panics are failures) against peers and ops-only twins; no residue once removes are fully covered; top-level Orswot/MVReg == canonical.",
+    "Map exemptions on ==/residue: MAP-T1, T2, T2b, T4, T5; top-level types strict.", "DESIGN.md 3/C20")
